@@ -202,7 +202,8 @@ def serveLoop : Nat → Ctx → Bytes → Res Ctx Event
     if (parseRequest ctx buf).stuck then
       { s := ctx, rest := buf, dead := false, stuck := true, evs := [] }
     else if (parseRequest ctx buf).ok = false then
-      { s := ctx, rest := buf, dead := true, stuck := false, evs := [.badRequest] }
+      { s := (parseRequest ctx buf).ctx, rest := (parseRequest ctx buf).rest, dead := true, stuck := false,
+        evs := [.badRequest] }
     else if (parseRequest ctx buf).ctx.state = .kGotAll then
       (serveLoop n Ctx.fresh (parseRequest ctx buf).rest).pre [.request (parseRequest ctx buf).ctx.req]
     else
